@@ -1,1 +1,2 @@
 pub mod ledger;
+pub mod mast_hist;
